@@ -36,9 +36,14 @@ def genCrop {α : Type} (pix : NDArr α) (lms : List (List Rat)) (zero : α) (mi
       else
         let newshape0 := (V.sub maxbounded0 minbounded0)
         let result0 := (Img.warpTranslate0 zero pix lms newshape0 minbounded0)
-        let block0 := (List.map (fun it0 => let p0 := it0; let lo0 := p0.1; let hi0 := p0.2; ((lo0 : Int), (hi0 : Int))) (List.zip (V.asInt minbounded0) (V.asInt maxbounded0)))
-        (Img.assignAll result0 (Img.block zero pix block0)).bind fun cropped0 =>
-          .ok (cropped0)
+        if returntransform then
+          let block0 := (List.map (fun it0 => let p0 := it0; let lo0 := p0.1; let hi0 := p0.2; ((lo0 : Int), (hi0 : Int))) (List.zip (V.asInt minbounded0) (V.asInt maxbounded0)))
+          (Img.assignAll result0 (Img.block zero pix block0)).bind fun cropped0 =>
+            .ok (cropped0)
+        else
+          let block0 := (List.map (fun it0 => let p0 := it0; let lo0 := p0.1; let hi0 := p0.2; ((lo0 : Int), (hi0 : Int))) (List.zip (V.asInt minbounded0) (V.asInt maxbounded0)))
+          (Img.assignAll result0 (Img.block zero pix block0)).bind fun cropped0 =>
+            .ok (cropped0)
 
 def genPcBounds (pts : List (List Rat)) (boundary : Rat) : Except Err (List Rat × List Rat) :=
   (Pc.colMin pts).bind fun h_0 =>
@@ -235,7 +240,7 @@ def genSetPatches {α : Type} (dflt : α) (patches : NDArr α) (pixels : Except 
         let p3 := (Np.roundPt (point0 + (Np.toPt offset)))
         let pr0 := (Np.pyInt p3.1)
         let pc0 := (Np.pyInt p3.2)
-        let pixels1 := (Np.assignWindow dflt pixels0 ((pr0 - lr0), (pr0 + hr0)) ((pc0 - lc0), (pc0 + hc0)) patch0)
+        let pixels1 := (Np.assignWindow dflt pixels0 (((pr0 - lr0) : Int), ((pr0 + hr0) : Int)) (((pc0 - lc0) : Int), ((pc0 + hc0) : Int)) patch0)
         pixels1)
     let pixels0 := r0
     pixels0
